@@ -5,6 +5,8 @@ import TracklibVerif.Lemmas.CinTabWorld
 import TracklibVerif.Lemmas.CinTabGeom
 import TracklibVerif.Lemmas.CinCoords
 import TracklibVerif.Lemmas.CinTabMore
+import TracklibVerif.Lemmas.CinTabZone
+import TracklibVerif.Lemmas.CinTabSt
 import Mathlib.Analysis.Real.Sqrt
 /-! # C17 — curvilinear abscissa and speed features match their geometric definitions
 
@@ -17,7 +19,11 @@ Two layers. The first part states the properties on the list model (`Model/Cinem
 positions, a list of times and an association list of columns). The second part ("on the feature table") states them
 on the programs as the Python runs them — through the Track API, `Model/CinematicsTab.lean` — for EVERY
 representation of the feature table that satisfies the laws `CinTab.Laws`, and shows that the specification table
-of C01 and the world of observation objects shared between tracks are such representations.
+of C01, C01's dict-and-rows table of a single track (`dict_rows_table_lawful`) and the world of observation objects
+shared between tracks are such representations. On the world every observation object carries the eight fields of its
+`ObsTime` (seven calendar fields and `zone`): no operation on features — the method `track.estimate_speed()` included,
+`speed_method_is_function` — writes one of them (`positions_and_stamps_unchanged`) and none reads the zone
+(`zone_not_read`): elapsed times are differences of clock readings.
 
 Third part ("per coordinate class", model `Model/CinematicsCoords.lean`): the same Python run on tracks whose positions
 are `ENUCoords`, `GeoCoords` or `ECEFCoords` — which `distance2DTo` each feature dispatches to, the statement for every
@@ -290,6 +296,14 @@ feature table; so `abscurv_table`, `speed_table`, … hold on it (and, through C
 dict-and-rows table `Features.St` of a single track). -/
 theorem spec_table_lawful {V : Type} [Inhabited V] : Laws (σ := ATab V) (V := V) aI ATab.size aRd ATab.coord := laws_ATab
 
+/-- The dict-and-rows table of a single track (`Features.St`, C01's concrete model: `__analyticalFeaturesDico` as a
+name → index list, one `features` row per observation) satisfies the laws of a feature table under C01's alignment
+invariant `Features.Inv` (the dict enumerates distinct names, every row carries exactly one value per listed name, the
+coordinate columns have one value per observation); a name reads the column of the index the dict designates. Each law
+is carried over from the specification table by C01's simulation lemma of the primitive. Hence `abscurv_table`,
+`speed_table`, `curvabs_table`, `length_table`, … hold on the table as Python lays it out. -/
+theorem dict_rows_table_lawful {V : Type} [Inhabited V] : Laws (σ := St V) (V := V) sI sN sRd St.coord := laws_St
+
 /-- **Shared observations.** The world of observation OBJECTS referenced by several tracks (`+`, extract, slicing share
 them; each object carries one `features` list, each track its own name → index dict) satisfies the laws of a feature
 table for the track in focus, under `WInv`: its references are distinct and valid, its dict enumerates distinct names
@@ -345,11 +359,39 @@ theorem speed_shared (sqrt : α → α) (ofNat : Nat → α) (isNaN : α → Boo
 tracks share — and also when the operation ends in an exception: after computing, reading, removing or writing
 features through any entry point (`computeAbsCurv`, `estimate_speed`, `addAnalyticalFeature(speed | ds)`,
 `operate(INTEGRATOR | DIFFERENTIATOR)`, `length`, `computeCurvAbsBetweenTwoPoints`, reads, `removeAnalyticalFeature`,
-`track[name] = list`, `isSorted`, `duration`, `getT`) the position and the calendar stamp of EVERY observation object
-and the reference list of EVERY track are what they were. -/
+`track[name] = list`, `isSorted`, `duration`, `getT`, and the METHOD `track.estimate_speed()`) the position and the stamp
+— the seven calendar fields and the `zone` field (`geom` lists `(x, y, z, t, zone)` per object) — of EVERY observation
+object and the reference list of EVERY track are what they were. -/
 theorem positions_and_stamps_unchanged {V : Type} [AbsTime V] (g : GOps V) (op : WOp V) (hop : op.onFeatures = true) (w : World V) :
     geom (stepW g op w).2 = geom w ∧ (stepW g op w).2.trks.map (·.ids) = w.trks.map (·.ids) :=
   stepW_frame g op hop w
+
+/-- `Track.estimate_speed()` — the method of core/track.py, called without a kernel — is `estimate_speed(track)` of
+algo/cinematics.py: same result, same final world, on every world. With `positions_and_stamps_unchanged` (the method is an
+operation on features): it rewrites no stamp, whatever zones the stamps of the track carry. -/
+theorem speed_method_is_function {V : Type} [AbsTime V] (g : GOps V) (k : Nat) (w : World V) :
+    stepW g (.speedMethod k) w = stepW g (.speed k) w := rfl
+
+/-- **No feature operation reads the zone of a stamp.** For every operation on features (`computeAbsCurv`,
+`estimate_speed` as a function and as a method, `addAnalyticalFeature(speed | ds)`, `operate`, `length`,
+`computeCurvAbsBetweenTwoPoints`, reads, `isSorted`, `duration`, `getT`, …), every world and every rewriting `f` of the
+zone fields of the stamps: on the rewritten world the operation returns the same value (or raises the same exception) and
+ends in the rewritten final world. So "the time elapsed between" two fixes that `speed` divides by is a function of the
+seven calendar fields of their stamps (the difference of the clock readings), whatever zones the stamps carry. -/
+theorem zone_not_read {V : Type} [AbsTime V] (g : GOps V) (op : WOp V) (hop : op.onFeatures = true) (f : Int → Int) (w : World V) :
+    stepW g op (w.zmap f) = ((stepW g op w).1, (stepW g op w).2.zmap f) :=
+  stepW_blind g op hop f w
+
+/-- Corollary: two worlds that differ in the zone fields only (they agree once every zone is set to 0) give the same
+result of every operation on features, and final worlds that again differ in the zones only. -/
+theorem same_result_whatever_zones {V : Type} [AbsTime V] (g : GOps V) (op : WOp V) (hop : op.onFeatures = true) (w w' : World V)
+    (h : w.zmap (fun _ => 0) = w'.zmap (fun _ => 0)) :
+    (stepW g op w).1 = (stepW g op w').1 ∧ (stepW g op w).2.zmap (fun _ => 0) = (stepW g op w').2.zmap (fun _ => 0) := by
+  have e1 := zone_not_read g op hop (fun _ => 0) w
+  have e2 := zone_not_read g op hop (fun _ => 0) w'
+  rw [h] at e1
+  rw [e1] at e2
+  exact ⟨(Prod.mk.inj e2).1, (Prod.mk.inj e2).2⟩
 
 end representations
 
@@ -618,10 +660,11 @@ section demoWorld
 open TV.Features TV.CinTab TV.ObsTime
 
 /-- four observation objects; the two middle ones already carry a slot (value 7) because they also belong to track 1,
-on which `speed` was computed; track 0 references all four and lists no feature -/
+on which `speed` was computed; track 0 references all four and lists no feature. The stamps of the first two were written by
+a logger set to zone 0, those of the last two by a logger set to zone +2 (the sixth component) -/
 def demoW : World (Option Rat) :=
-  { heap := [⟨some 0, some 0, some 0, ⟨1970, 1, 1, 0, 0, 0, 0⟩, []⟩, ⟨some 3, some 4, some 0, ⟨1970, 1, 1, 0, 0, 2, 0⟩, [some 7]⟩,
-             ⟨some 3, some 4, some 1, ⟨1970, 1, 1, 0, 0, 2, 0⟩, [some 7]⟩, ⟨some 6, some 8, some 0, ⟨1970, 1, 1, 0, 0, 5, 0⟩, []⟩],
+  { heap := [⟨some 0, some 0, some 0, ⟨1970, 1, 1, 0, 0, 0, 0⟩, [], 0⟩, ⟨some 3, some 4, some 0, ⟨1970, 1, 1, 0, 0, 2, 0⟩, [some 7], 0⟩,
+             ⟨some 3, some 4, some 1, ⟨1970, 1, 1, 0, 0, 2, 0⟩, [some 7], 2⟩, ⟨some 6, some 8, some 0, ⟨1970, 1, 1, 0, 0, 5, 0⟩, [], 2⟩],
     trks := [⟨[0, 1, 2, 3], []⟩, ⟨[1, 2], [("speed", 0)]⟩], cur := 0 }
 
 def demoG : GOps (Option Rat) := optG (fun x => if x = 25 then 5 else if x = 100 then 10 else 0) (fun n => (n : Rat)) (fun _ => false)
@@ -650,6 +693,18 @@ example : wRd { (stepW demoG (.absCurv 0) demoW).2 with cur := 0 } "abs_curv" = 
   decide +kernel
 example : (match (stepW demoG (.speed 0) demoW).1 with | .ok (.col l) => l | _ => [])
     = [some (5 / 2), some (5 / 2), some (5 / 3), some (5 / 3)] := by decide +kernel
+/-- the METHOD `track.estimate_speed()` on the same track (stamps of two zones): the same column, and the `zone` fields —
+like every other field of every stamp — are what they were -/
+example : (match (stepW demoG (.speedMethod 0) demoW).1 with | .ok (.col l) => l | _ => [])
+    = [some (5 / 2), some (5 / 2), some (5 / 3), some (5 / 3)] := by decide +kernel
+example : (stepW demoG (.speedMethod 0) demoW).2.heap.map (·.zone) = [0, 0, 2, 2] := by decide +kernel
+/-- `demoW` is a non-trivial instance of `zone_not_read` / `same_result_whatever_zones`: its zones are not all 0 -/
+example : (demoW.zmap (fun _ => 0)).heap.map (·.zone) = [0, 0, 0, 0] ∧ demoW.heap.map (·.zone) ≠ [0, 0, 0, 0] := by decide +kernel
+/-- `track.setTimeZone(1)` on the section (track 1) writes the zone of the two shared objects and nothing else; the speeds
+computed afterwards are the same -/
+example : (stepW demoG (.setZone 1 1) demoW).2.heap.map (·.zone) = [0, 1, 1, 2] := by decide +kernel
+example : (match (stepW demoG (.speed 0) (stepW demoG (.setZone 1 1) demoW).2).1 with | .ok (.col l) => l | _ => [])
+    = [some (5 / 2), some (5 / 2), some (5 / 3), some (5 / 3)] := by decide +kernel
 /-- an in-place edit of a timestamp FIELD is seen by the next computation: fix 1 moved from second 2 to second 0 -/
 example : (match (stepW demoG (.speed 0) (stepW demoG (.setTime 0 1 "sec" 0) demoW).2).1 with | .ok (.col l) => l | _ => [])
     = [none, some (5 / 2), some (5 / 5), some (5 / 3)] := by decide +kernel
@@ -665,6 +720,26 @@ example : (match (stepW (optG (fun x => if x = 25 then 5 else if x = 1 then 1 el
 example : len3D (fun x : Rat => if x = 25 then 5 else if x = 1 then 1 else if x = 26 then 51 / 10 else 0) demo.xy [0, 0, 1, 0] 3
     = 111 / 10 := by decide +kernel
 end demoWorld
+
+/-! ### non-vacuity of `dict_rows_table_lawful`: an aligned dict-and-rows table -/
+section demoSt
+open TV.Features TV.CinTab
+
+/-- four fixes, two listed features (`w` at index 0, `speed` at index 1), one row of two values per observation -/
+def demoSt : St (Option Rat) :=
+  { dico := [("w", 0), ("speed", 1)], rows := [[some 1, some 7], [some 2, some 7], [some 3, some 7], [some 4, some 7]],
+    xs := [some 0, some 3, some 3, some 6], ys := [some 0, some 4, some 4, some 8], zs := [some 0, some 0, some 1, some 0],
+    ts := [some 0, some 2, some 2, some 5] }
+
+example : sI demoSt := ⟨by decide, by decide, by decide, by decide, by decide, by decide, by decide, by decide⟩
+example : sN demoSt = 4 ∧ sRd demoSt "w" = some [some 1, some 2, some 3, some 4] ∧ sRd demoSt "abs_curv" = none
+    ∧ sRd demoSt "ds" = none := by decide +kernel
+/-- the run on that table: abs_curv 0, 5, 5, 10 is appended as a third name, `w` and `speed` read as before -/
+example : ((computeAbsCurvT demoG : M (St (Option Rat)) _) demoSt).1 = .ok [some 0, some 5, some 5, some 10] := by decide +kernel
+example : sRd ((computeAbsCurvT demoG : M (St (Option Rat)) _) demoSt).2 "w" = some [some 1, some 2, some 3, some 4]
+    ∧ sRd ((computeAbsCurvT demoG : M (St (Option Rat)) _) demoSt).2 "abs_curv" = some [some 0, some 5, some 5, some 10] := by
+  decide +kernel
+end demoSt
 
 /-! ### non-vacuity of the per-class theorems -/
 section demoCoords
